@@ -173,6 +173,44 @@ def rule_positional(ctx):
     ctx.floor("C05.b paths", n, 1)
 
 
+def lin(v):
+    """Linear form (const, {tag: coeff}) of an abstract integer value, or None."""
+    if isinstance(v, Const):
+        if v.v is None:
+            return (0, {})
+        return (v.v, {}) if isinstance(v.v, int) and not isinstance(v.v, bool) else None
+    if isinstance(v, Sym):
+        o = v.origin
+        if o and o[0] == "binop" and o[1] in ("Add", "Sub"):
+            a, b = lin(o[2]), lin(o[3])
+            if a is None or b is None:
+                return None
+            sign = 1 if o[1] == "Add" else -1
+            d = dict(a[1])
+            for k, c in b[1].items():
+                d[k] = d.get(k, 0) + sign * c
+            return (a[0] + sign * b[0], {k: c for k, c in d.items() if c})
+        if o and o[0] == "boolop" and o[1] == "or" and len(o[2]) == 2 and isinstance(o[2][1], Const) and o[2][1].v == 0:
+            return lin(o[2][0])  # `x or 0` == x for integers
+        return (0, {v.tag: 1})
+    return None
+
+
+def lin_eq(a, b) -> bool:
+    la, lb = lin(a), lin(b)
+    return la is not None and lb is not None and la == lb
+
+
+def lin_sum(a, b):
+    la, lb = lin(a), lin(b)
+    if la is None or lb is None:
+        return None
+    d = dict(la[1])
+    for k, c in lb[1].items():
+        d[k] = d.get(k, 0) + c
+    return (la[0] + lb[0], {k: c for k, c in d.items() if c})
+
+
 def rule_slice(ctx):
     prog = ctx.prog
     fn = prog.fn("cursor", "FakeSnowflakeCursor.fetchmany")
@@ -201,27 +239,18 @@ def rule_slice(ctx):
                         ln = kw.get("length", pos[1] if len(pos) > 1 else None)
                         new_idx = cur.attrs.get("_arrow_table_fetch_index")
                         idx_falsy = any(t == "truthy(INDEX)" and v is False for t, v in p.assumed)
-                        # offset
-                        if idx_name == "unset" or idx_falsy:
-                            if not (isinstance(off, Const) and off.v == 0) and off is not IDX:
-                                probs.append(f"offset `{tagof(off)}` is not 0 when no row has been fetched")
-                        elif off is not IDX:
-                            probs.append(f"offset `{tagof(off)}` is not the running index")
-                        # length is the requested size
+                        # all comparisons are on linear forms, so `start = idx or 0; idx = start + n` is the same as `idx += n`
+                        cur_idx = Const(0) if (idx_name == "unset" or idx_falsy) else IDX
+                        if not lin_eq(off, cur_idx):
+                            probs.append(f"offset `{tagof(off)}` is not {'0 when no row has been fetched' if cur_idx is not IDX else 'the running index'}")
                         want_len = size if size_name == "given" else cur.attrs.get("_arraysize")
-                        if ln is not want_len:
+                        if not lin_eq(ln, want_len):
                             probs.append(f"length `{tagof(ln)}` is not {'the size argument' if size_name == 'given' else 'arraysize'}")
-                        # advance by the same value
-                        if idx_name == "unset":
-                            if new_idx is not ln:
-                                probs.append(f"index becomes `{tagof(new_idx)}`, not the slice length `{tagof(ln)}`")
-                        else:
-                            okadv = (isinstance(new_idx, Sym) and new_idx.origin and new_idx.origin[0] == "binop" and new_idx.origin[1] == "Add"
-                                     and {id(new_idx.origin[2]), id(new_idx.origin[3])} == {id(IDX), id(ln)})
-                            if idx_falsy and new_idx is ln:
-                                okadv = True
-                            if not okadv:
-                                probs.append(f"index becomes `{tagof(new_idx)}`, not index + slice length")
+                        got_new = lin(new_idx)
+                        if got_new is not None and idx_falsy:  # on this path the index is known to be 0
+                            got_new = (got_new[0], {k: c for k, c in got_new[1].items() if k != "INDEX"})
+                        if got_new is None or got_new != lin_sum(cur_idx, ln):
+                            probs.append(f"index becomes `{tagof(new_idx)}`, not index + slice length")
                     ctx.ob("C05.c", f"fetchmany(index {idx_name}, size {size_name}, dict={dict_result}): slice at index, advance by length",
                            not probs, loc, "; ".join(probs))
                     for pr in probs:
@@ -243,7 +272,7 @@ def rule_slice(ctx):
         return I.getattr(cur, "arraysize")
     for p in explore(prog, lambda: ExecHooks(None), run_set, max_paths=16):
         sl = _slice_calls(p)
-        ln = dict(sl[0][3]).get("length") if sl else None
+        ln = dict(sl[0][3]).get("length", (list(sl[0][2]) + [None, None])[1]) if sl else None
         ok = setter is not None and isinstance(ln, Sym) and ln.tag == "NEWSIZE" and isinstance(p.value, Sym) and p.value.tag == "NEWSIZE"
         ctx.ob("C05.e", "arraysize setter -> default slice length of fetchmany() and getter", ok, loc, tagof(ln))
         if not ok:
@@ -262,7 +291,7 @@ def rule_slice(ctx):
                 # `size or arraysize`: an empty table falls back to arraysize rows of nothing
                 isinstance(ln, Sym) and ln.origin and ln.origin[0] == "boolop" and ln.origin[1] == "or"
                 and tagof(ln.origin[2][0]) == str(want))
-            ok_off = off is IDX or (idx_falsy and isinstance(off, Const) and off.v == 0)
+            ok_off = lin_eq(off, IDX) or (idx_falsy and isinstance(off, Const) and off.v == 0)
             ok = len(sl) == 1 and ok_len and ok_off
             ctx.ob("C05.c", f"{meth}: one slice of length {want} at the running index", ok, loc, f"{tagof(off)} {tagof(ln)}")
             if not ok:
